@@ -51,6 +51,16 @@ CLAIMED = {
              "normalised first. Finiteness of scores on degenerate data is not decided.",
         technique="abstract interpretation over ast (affine forms + symbolic array shapes/origins/layouts), Fourier-Motzkin inequality prover, def-use rule",
         ref="5 C05"),
+    "C06": dict(
+        text="Flat-index codec rule: the loop nest that builds the candidate stacks is inferred from the source (which loop enumerates "
+             "rotations, which templates, how masks are replicated) and every decoder of the flat arg-max index (model.align, model.fit, loader "
+             "and group write-back) is checked to use // T for the rotation and % T for the template, where the modulus expression must denote "
+             "the template count of the same model by def-use, on every path where several rotations are possible (the sentinel guard is "
+             "proved for all T >= 1 with a witness otherwise); arg-max selection and equal-length zips are checked structurally; the rotation-set "
+             "normaliser must yield rank-2 arrays on every path. Holds for every T, K and (j, k); whether the best score is the planted "
+             "candidate is numerical and not decided.",
+        technique="encoder/decoder agreement rule over loop nests and def-use chains (ast), guard proof with small-integer witnesses",
+        ref="5 C06"),
 }
 
 NOT_APPLICABLE = {
